@@ -125,13 +125,16 @@ def number (E : Env) (v : Val) : Num :=
   | .int .i64 i => ⟨i, false⟩
   | _ => numberOfFloat (toFloat E.c5 v)
 
-/-- toIntegerFloat (value_number.go:117) read as an exact extended integer (math.Floor / math.Ceil are
-    exact; ±Inf pass through; NaN gives 0) -/
-def toIntegerE (E : Env) (v : Val) : EInt :=
-  match toFloat E.c5 v with
+/-- a double that is already integral-or-special, as an extended integer: NaN ↦ 0, ±Inf stay, a finite
+    value is truncated toward zero (sign(x)·floor(|x|)) -/
+def EInt.ofNumber : FV → EInt
   | .nan => .fin 0
   | .inf s => if s then .ninf else .pinf
   | .fin s m e => .fin (truncInt (.fin s m e))
+
+/-- toIntegerFloat (value_number.go:117) read as an exact extended integer (math.Floor / math.Ceil are
+    exact; ±Inf pass through; NaN gives 0) -/
+def toIntegerE (E : Env) (v : Val) : EInt := EInt.ofNumber (toFloat E.c5 v)
 
 /-- Go int64 arithmetic wraps -/
 def wrap64 (i : Int) : Int := wrapS 64 i
